@@ -9,7 +9,8 @@
      pool_advance       ChainPool.advance: map (advance n) over the pickled chains
      serial_advance     the same chains advanced in place one after another
      ens_advance        EnsembleSampler.advance (true = repaired, false = pinned), None = raised
-     rf_run             MarkovChain.run_for against an abstract clock: step i costs `cost i`
+     rf_run             MarkovChain.run_for against an abstract clock (w = samples stored per
+                        step: 1 for the chains, n_walkers for the ensemble): step i costs `cost i`
                         seconds, every time() call b seconds; the list of loop states at
                         every evaluation of `current_time < end_time`; None = out of fuel *)
 From Coq Require Import List ZArith QArith Arith.
@@ -83,41 +84,41 @@ Proof. exact ens_run_spec. Qed.
    pass starts from a check that found the deadline not reached, takes at least
    one whole step and at least cmin seconds; and it stops at the first check at
    or after the deadline *)
-Theorem C15_run_for_progress : forall (cost : nat -> Q) (cmin b start stop : Q),
+Theorem C15_run_for_progress : forall (w : nat) (cost : nat -> Q) (cmin b start stop : Q),
   (0 < cmin)%Q -> (forall i, (cmin <= cost i)%Q) -> (0 <= b)%Q ->
   forall st, 1 <= rf_interval st ->
   exists N k,
-    rf_run N true cost b start stop st
-    = Some (map (fun j => rf_iter j true cost b start st) (seq 0 (S k))) /\
+    rf_run N true w cost b start stop st
+    = Some (map (fun j => rf_iter j true w cost b start st) (seq 0 (S k))) /\
     (forall j, j < k ->
-       (rf_now (rf_iter j true cost b start st) < stop)%Q /\
-       rf_steps (rf_iter j true cost b start st) + 1
-         <= rf_steps (rf_iter (S j) true cost b start st) /\
-       (rf_now (rf_iter j true cost b start st) + cmin
-         <= rf_now (rf_iter (S j) true cost b start st))%Q) /\
-    (stop <= rf_now (rf_iter k true cost b start st))%Q.
+       (rf_now (rf_iter j true w cost b start st) < stop)%Q /\
+       rf_steps (rf_iter j true w cost b start st) + 1
+         <= rf_steps (rf_iter (S j) true w cost b start st) /\
+       (rf_now (rf_iter j true w cost b start st) + cmin
+         <= rf_now (rf_iter (S j) true w cost b start st))%Q) /\
+    (stop <= rf_now (rf_iter k true w cost b start st))%Q.
 Proof. exact run_for_progress. Qed.
 
-Theorem C15_run_for_fuel_irrelevant : forall (cost : nat -> Q) (b start stop : Q) N st tr M,
+Theorem C15_run_for_fuel_irrelevant : forall (w : nat) (cost : nat -> Q) (b start stop : Q) N st tr M,
   N <= M ->
-  rf_run N true cost b start stop st = Some tr ->
-  rf_run M true cost b start stop st = Some tr.
+  rf_run N true w cost b start stop st = Some tr ->
+  rf_run M true w cost b start stop st = Some tr.
 Proof. exact rf_run_fuel_mono. Qed.
 
 (* ---- the pinned tree *)
 (* D23: 2 s per step, one minute: after the first 20 steps the interval is 0, the
    loop state is a fixed point and run_for never returns *)
 Theorem C15_run_for_stalls_refuted :
-  let st1 := rf_next false two_seconds 0 0 (rf_init 0) in
+  let st1 := rf_next false 1 two_seconds 0 0 (rf_init 0) in
   rf_steps st1 = 20 /\ (rf_now st1 == 40)%Q /\ rf_interval st1 = 0 /\
-  rf_next false two_seconds 0 0 st1 = st1 /\
-  forall fuel, rf_run fuel false two_seconds 0 0 60 (rf_init 0) = None.
+  rf_next false 1 two_seconds 0 0 st1 = st1 /\
+  forall fuel, rf_run fuel false 1 two_seconds 0 0 60 (rf_init 0) = None.
 Proof. exact run_for_stalls_refuted. Qed.
 
 (* D23 with a clock that also advances between steps: it returns, but spins
    without taking a step once the interval is 0 *)
 Theorem C15_run_for_idles_refuted :
-  exists tr, rf_run 100 false two_seconds (1 # 2) 0 60 (rf_init 0) = Some tr /\
+  exists tr, rf_run 100 false 1 two_seconds (1 # 2) 0 60 (rf_init 0) = Some tr /\
     length tr = 41 /\ rf_steps (last tr (rf_init 0)) = 20 /\
     rf_interval (nth 1 tr (rf_init 0)) = 0.
 Proof. exact run_for_idles_refuted. Qed.
@@ -134,7 +135,7 @@ Example C15_example :
   observe true (advance stub_draw 250 (stub_chain 3)) = (253, 253, 253, [252; 251; 250; 249; 248])%Z /\
   ens_wf 4 (ens_fresh 4) /\ both_or_neither (ens_fresh 4) /\ ens_consistent (ens_fresh 4) /\
   option_map ens_obs (ens_run ens_move true [0; 3; 0; 2] (ens_fresh 4)) = Some (20, 20, 20, 5)%Z /\
-  (exists tr, rf_run 100 true two_seconds 0 0 60 (rf_init 0) = Some tr /\
+  (exists tr, rf_run 100 true 1 two_seconds 0 0 60 (rf_init 0) = Some tr /\
      rf_steps (last tr (rf_init 0)) = 30 /\ (rf_now (last tr (rf_init 0)) == 60)%Q).
 Proof.
   split; [split; reflexivity|]. split; [vm_compute; reflexivity|].
